@@ -18,9 +18,10 @@ TOnone == (1 :> -1) @@ (2 :> -1) @@ (3 :> -1)
 TO2 == (1 :> -1) @@ (2 :> 1) @@ (3 :> -1)
 TO0 == (1 :> -1) @@ (2 :> 0) @@ (3 :> -1)
 Cfg(o, mc, mk, ex, to, mux, mg) ==
-  [originOf |-> o, maxConn |-> mc, maxKeep |-> mk, expiry |-> ex, poolTO |-> to, mux |-> mux, muxGuess |-> mg]
+  [originOf |-> o, maxConn |-> mc, maxKeep |-> mk, expiry |-> ex, poolTO |-> to, mux |-> mux, muxGuess |-> mg, noKeep |-> {}]
+CfgNK(o, mc, mk, ex, to, mux, mg, nk) == [Cfg(o, mc, mk, ex, to, mux, mg) EXCEPT !.noKeep = nk]
 \* quick: one connection, keep-alive with expiry, one pool timeout
-CfgsQ1 == {Cfg(OrgAAB, 1, 1, 1, TO2, {}, {})}
+CfgsQ1 == {Cfg(OrgAAB, 1, 1, 1, TO2, {}, {}), CfgNK(OrgAAB, 1, 1, -1, TOnone, {}, {}, {1})}
 \* two connections, keep-alive limit below the connection limit
 CfgsQ2 == {Cfg(OrgABA, 2, 1, -1, TOnone, {}, {})}
 \* HTTP/2 guess that turns out HTTP/1.1 (re-queue), and real HTTP/2
@@ -28,6 +29,20 @@ CfgsQ3 == {Cfg(OrgAAA, 1, 1, -1, TOnone, {}, {"A"}), Cfg(OrgAAB, 2, 2, -1, TOnon
 CfgsT == { Cfg(o, mc, mk, ex, to, mux, mg) :
              o \in {OrgAAB, OrgABA}, mc \in {1, 2}, mk \in {0, 1}, ex \in {-1, 0, 1},
              to \in {TOnone, TO2, TO0}, mux \in {{}}, mg \in {{}, {"A"}} }
+StylesScope == {"scope"}
+StylesBoth == {"scope", "native"}
+DevNative == {"NativeCancelInShield"}
+\* keep-alive limit below the connection limit, two idle candidates
+CfgsK1 == {Cfg(OrgABA, 2, 1, -1, TOnone, {}, {}), Cfg(OrgAAB, 2, 0, 1, TOnone, {}, {})}
+\* liveness instance (two requests, one connection)
+OrgAA2 == (1 :> "A") @@ (2 :> "A")
+OrgAB2 == (1 :> "A") @@ (2 :> "B")
+TOnone2 == (1 :> -1) @@ (2 :> -1)
+CfgsL1 == {Cfg(OrgAA2, 1, 1, -1, TOnone2, {}, {}), Cfg(OrgAB2, 1, 1, -1, TOnone2, {}, {}), Cfg(OrgAA2, 1, 1, -1, TOnone2, {}, {"A"})}
+DevReconn == {"ReconnectOnFailed"}
+DevLimit == {"CreateAtLimit"}
+DevNoRemove == {"ForgetRemove"}
+DevNoPass == {"NoPassOnLeave"}
 DevKeep == {"KeepaliveCountsAll"}
 DevFresh == {"AbandonAssignedFresh"}
 DevTO == {"TimeoutAfterAssign"}
